@@ -29,6 +29,7 @@ def run(ctx: Ctx, chk) -> None:
 
     chk.run_rule(lambda c, k: c08.write_then_forget(c, k, loss_only=True), ctx)
     chk.run_rule(held_kept, ctx)
+    chk.run_rule(tables.write_sync_rule, ctx)
 
 
 def exhaust(ctx: Ctx, chk) -> None:
